@@ -390,7 +390,7 @@ def direct_mutations(rng):
              {'name': 'name', 'type': 'CharField', 'attrs': {'max_length': 20}, 'related': None},
              {'name': 'owner', 'type': 'ForeignKey', 'attrs': {'null': True}, 'related': 'vapp.Alpha'}]}]}]}
     old = sigs.sig_from_spec(spec)
-    k = rng.choice(['check', 'check', 'index_cond', 'index_expr', 'unique', 'add_str', 'change_str', 'together',
+    k = rng.choice(['check', 'check', 'index_cond', 'index_expr', 'unique', 'add_str', 'change_str', 'together', 'together',
                     'rename_field', 'rename_field', 'rename_model', 'change_plain', 'add_plain'])
     q = values.gen_q_ops(rng) if rng.random() < 0.7 else values.gen_q(rng)
     if k == 'check':
@@ -441,7 +441,10 @@ def direct_mutations(rng):
                         db_column=rng.choice([None, 'extra2', 'x2']), unique=rng.choice([True, False]))
         v = None
     else:
-        mu = M.ChangeMeta('Alpha', 'unique_together', [('a', 'name')])
+        # one or several entries, in an order that is not the sorted one: the order is part of the value
+        mu = M.ChangeMeta('Alpha', rng.choice(['unique_together', 'index_together']),
+                          rng.choice([[('a', 'name')], [('name', 'a'), ('a', 'b__gt')], [('name', 'b__gt'), ('b__gt', 'a')],
+                                      [('b__gt', 'name'), ('a', 'name'), ('name', 'a')]]))
         v = None
     return spec, old, [mu], v
 
